@@ -58,7 +58,7 @@ def _wrap_ids(ids, how):
     raise core.MachineryError('unknown id carrier %r' % (how,))
 
 
-def _range_event(ids, after, delim, raised, out, src):
+def _range_event(ids, after, delim, raised, out, src, form):
     if isinstance(out, str):
         kind, payload = 'text', codes(out)
     elif isinstance(out, (list, tuple)) and all(isinstance(x, str) for x in out):
@@ -66,7 +66,7 @@ def _range_event(ids, after, delim, raised, out, src):
     else:                                    # not a range output at all
         kind, payload = 'text', codes(repr(out))
     return {'ev': 'range', 'ids': [codes(i) for i in ids], 'after': [codes(i) for i in after],
-            'delim': ord(delim), 'raised': raised, 'kind': kind, 'out': payload, 'src': src}
+            'delim': ord(delim), 'raised': raised, 'form': form, 'kind': kind, 'out': payload, 'src': src}
 
 
 def _species():
@@ -172,7 +172,8 @@ def execute_range(case):
             except Exception as ex:
                 raised = type(ex).__name__
             events.append(_range_event(ids, read(objs), delim, raised, out,
-                                       '%s#%d' % (case['host'], rep + 1)))
+                                       '%s#%d' % (case['host'], rep + 1),
+                                       'list' if case['host'].startswith('bep.yaml') else 'str'))
             try:
                 between()
             except Exception:
@@ -195,7 +196,7 @@ def execute_range(case):
         except Exception as ex:
             raised = type(ex).__name__
         events.append(_range_event(ids, read(objs), delim, raised, out,
-                                   '%s/%s' % (call['form'], call['as'])))
+                                   '%s/%s' % (call['form'], call['as']), call['form']))
         if case.get('tlc') and case['must'] and raised:
             mism.append({'call': call, 'tlc_must_accept': True, 'raised': raised})
     return events, mism
@@ -914,6 +915,8 @@ def run(ctx):
             good.append(('MC_OmkmRange', 'MC_OmkmRange_big'))
         bad = [('MC_OmkmRange', 'MC_OmkmRange_isdigit',
                 'accepting footers spelt with digits of other scripts (isdigit()+int())'),
+               ('MC_OmkmRange', 'MC_OmkmRange_fastpath',
+                'a one-identifier shortcut that ignores format=\'list\' and never raises'),
                ('MC_OmkmRange', 'MC_OmkmRange_pad4',
                 'the "%04d" re-printing on identifiers of other widths and on the empty prefix'),
                ('MC_CtiWrap', 'MC_CtiWrap_onelimit', 'filling the first line to max_line_len'),
